@@ -5,12 +5,12 @@ PROP = {
     "trusted_base": TB_COMMON + ["Properties/C10.v re-states theorems proved in the developments of C08, C09, C13, C18 and Proofs/SpecBoundsProofs.v"],
     "assumptions": ASSUME_COMMON + [
         "every Go fault site of a modelled layer is a Crash value in its model; the theorems say Crash is unreachable there (interpreter stack overflow given the 4*TrackCount check, replacement parser, UTF-8 decoding and byte-range tables, option pre-scan, positions/captures of the reference search)",
-        "NOT proved: panic-freedom of the pattern parser and class canonicaliser on arbitrary bytes, control-flow safety of the interpreter (jump targets / frame discipline) and termination on every program: these are explored by leg c10-robust (mutated parser corpus x options x hostile inputs under recover and a watchdog), which is exploration in support of the claim, not a proof",
+        "NOT proved: panic-freedom of the pattern parser and class canonicaliser on arbitrary bytes, for ARBITRARY (non-compiled) programs control-flow safety and termination (for compiled programs both are theorems): these are explored by leg c10-robust (mutated parser corpus x options x hostile inputs under recover and a watchdog), which is exploration in support of the claim, not a proof",
     ],
 }
 TEXT = {
     "text": "Partial proof + exploration: C10_interpreter_step_never_overflows and C10_compiled_push_weight (the backtracking stack cannot be overrun between two ensureStorage checks for any program the writer emits — the capacity argument behind 'never panics' of C13), C10_limit_dichotomy_partial, C10_search_stays_inside_the_input, C10_replacer_data_no_panic, C10_replace_count_startat, C10_decode_total, C10_byte_range_slices, C10_prescan_total. The unmodelled parser glue is driven by 12k (quick) mutated patterns of the shipped 1,883-file parser corpus and harvested patterns, all option subsets, out-of-range arguments; any panic, hang or undocumented error is a violation. Added from C01/C13/C03/C02/C19: C10_compiled_program_never_crashes, C10_exec_never_crashes_explicit (exec_at on a compiled supported program is never Crash), C10_compiled_program_control_flow_safe, C10_limit_dichotomy_compiled, C10_optimized_finders_answer_ok, C10_prefilter_closures_answer_ok, C10_literal_parser_total. C10_default_finder_answers_ok (all of findFirstCharDefault answers Ok at every position of the text). C10_search_never_hangs: the reference search terminates on every tree, text and start offset (explicit fuel), within term_fuel e root on trees with one-directional loop bodies, and on the program of such a supported2 tree the interpreter model returns a state or ErrBacktrackingStackLimit from some interpreter fuel on (C10_compiled_program_returns: the state is the reference answer).",
     "design_ref": "DESIGN.md §4 C10",
-    "note": "Claimed partial: theorems cover the modelled layers only; the parser on arbitrary bytes and interpreter termination are explored, not proved.",
+    "note": "Claimed partial: theorems cover the modelled layers only; the search itself is proved to terminate and never to crash for compiled programs of every tree the parser builds (C10_search_never_hangs, C10_compiled_program_never_crashes); the pattern parser on arbitrary bytes outside the modelled fragments is explored, not proved.",
     "technique": "Coq no-crash theorems for modelled layers + mutation-based robustness exploration of the parser glue",
 }
